@@ -6,6 +6,7 @@ HIST_RULE = ("seeded operation histories (case idx -> PRNG seed) over engineered
              "operations and crossed at least one growth step (maps) / has >= 10 operations (stacks)")
 
 ENGINE_KINDS = {
+    "bytecode": "every compiler output of the run decoded front to back and validated in full (opcodes, operand widths, final Exit, jump targets, labels, function handles, string operands, index ranges, ids/names bijection, trace keys and coverage) by an independent verifier; opcode table cross-checked against the crate's",
     "gc": "collector forced at every / each single / every n-th / random subsets of a program's allocation points (allocator hook); heap-reachability audit at the dispatch hook after every instruction that collected (quarantine makes swept objects recognisable by address); released-memory checksum; self-differential against the run without collections; the same schedules under AddressSanitizer without quarantine",
     "total": "hostile inputs (arbitrary card trees through the JSON/YAML loaders, size-limit modules, hostile well-scoped programs under tiny stacks/heaps/budgets) under crash, panic, abort, native-stack-overflow and hang monitors in isolated workers",
     "resolve": "generated module trees with same-named functions, imports (function, module, super.) valid and invalid; every function logs a unique tag; reference resolver + reference interpreter decide which bodies must run and which modules must be rejected",
@@ -170,5 +171,19 @@ CHECKS = {
         "targets": {"quick": {"scheduled_runs": 300000, "gc_during:AppendTable": 500, "gc_during:SetProperty": 200, "gc_during:NthRow": 100, "gc_during:CallNative": 20000, "gc_during:RegisterUpvalue": 5000, "gc_during:Closure": 5000},
                     "thorough": {"scheduled_runs": 8000000}},
         "assumptions": ["a collection can only start inside CaoLangAllocator::alloc (the hook sits exactly where the stock threshold check is)"],
+    },
+    "C10": {
+        "level": "translation_validation",
+        "level_text": "Every program the compiler returns during the run - from the well-scoped generators, the closure and GC scenarios, the module-tree generator and the hostile/arbitrary (not well-scoped) generator - is validated in full, not only along the executed path, by a verifier written from the Instruction doc comments: linear decode from offset 0 with known opcodes and complete operands ending in Exit; every Goto/GotoIfTrue/GotoIfFalse operand and every label on an instruction start; every FunctionPointer/Closure handle present in the labels; every string operand a complete valid UTF-8 length-prefixed string inside the data section; local/upvalue indices < 255, RegisterUpvalue flag in {0,1}; global ids < number of variables and ids/names a bijection consistent with variable_id(); every trace key an instruction start and every instruction other than Pop/CloseUpvalue with a trace entry. The verifier's opcode/width table is compared with the crate's at start-up and its instruction starts with disassemble_string per program.",
+        "level_note": "Trusted: the verifier's own opcode table (cross-checked, a disagreement is reported as a violation of the self-check). Validation is per output of this run: it says nothing about modules the generators do not produce.",
+        "technique": "runtime monitoring / translation validation: every compiler output of the run is decoded and checked in full by an independent bytecode verifier",
+        "rule": "modules from all generators of the harness; evaluations = modules generated, programs = those that compiled and were validated; non-trivial when the bytecode is longer than 40 bytes",
+        "engines": [
+            {"engine": "bytecode", "profile": "dev", "cases": {"quick": 5000, "thorough": 150000}, "primary": True},
+        ],
+        "hard_floor": {"evaluations": 100, "counters": {"programs_validated": 500, "instructions_checked": 10000}},
+        "targets": {"quick": {"op:.*": 1000000, "op:Closure": 1000, "op:RegisterUpvalue": 1000, "op:ForEach": 1000, "op:GotoIfFalse": 1000, "labels_checked": 100000},
+                    "thorough": {"op:.*": 30000000}},
+        "assumptions": ["structural validity as listed in the property statement"],
     },
 }
